@@ -204,6 +204,14 @@ fn is_valid_chardata(kind: &str, data: &str) -> bool {
     }
 }
 
+/// does the element show an attribute of that name that exists only through an ATTLIST default (id 0)?
+/// DOM Level 1 lets such an attribute reappear after removal and be shadowed by set_attribute; the snapshot
+/// does not contain those nodes (they have no identity), so name-based calls that meet one are not judged.
+fn has_defaulted_attribute(e: &XmlNode, name: &str) -> bool {
+    use xml_dom::{Attr, NamedNodeMap};
+    e.attributes().map(|m| m.iter().any(|a| a.as_node().id() == 0 && a.name() == name)).unwrap_or(false)
+}
+
 pub fn spec(pool: &Pool, s: &Snap, op: &Json) -> Spec {
     let kind = op["op"].as_str().unwrap_or("");
     let node_at = |k: &str| -> (XmlNode, Key) {
@@ -339,6 +347,11 @@ pub fn spec(pool: &Pool, s: &Snap, op: &Json) -> Spec {
                 }
             }
             e.get_mut(&ck).unwrap().parent = Some(pk);
+            if pkind == "attribute" && ckind == "entityref" {
+                // an attribute must refuse a reference whose entity has markup or is external (XML: no '<' in
+                // attribute values); DOM Level 1 does not know the rule, so both outcomes are admissible here
+                return Spec::OkOrRefuse { expected: e, refuse: vec!["HierarchyRequestErr"] };
+            }
             Spec::Ok { expected: e, also_fail: vec![] }
         }
         "set_attr" => {
@@ -347,6 +360,9 @@ pub fn spec(pool: &Pool, s: &Snap, op: &Json) -> Spec {
                 return Spec::Unspecified("not-an-element");
             }
             let name = st("name");
+            if has_defaulted_attribute(&e_, &name) {
+                return Spec::Unspecified("defaulted-attribute-of-that-name");
+            }
             let value = st("value");
             if !chars::is_name(&name) {
                 return Spec::Fail(vec!["InvalidCharacterErr"]);
@@ -381,6 +397,9 @@ pub fn spec(pool: &Pool, s: &Snap, op: &Json) -> Spec {
                 return Spec::Unspecified("not-an-element");
             }
             let name = st("name");
+            if has_defaulted_attribute(&e_, &name) {
+                return Spec::Unspecified("defaulted-attribute-of-that-name");
+            }
             if name.contains(':') {
                 return Spec::Unspecified("qualified-attribute-name");
             }
@@ -460,6 +479,9 @@ pub fn spec(pool: &Pool, s: &Snap, op: &Json) -> Spec {
                 return Spec::Unspecified("not-an-element");
             }
             let name = st("name");
+            if has_defaulted_attribute(&e_, &name) {
+                return Spec::Unspecified("defaulted-attribute-of-that-name");
+            }
             if name.contains(':') {
                 return Spec::Unspecified("qualified-attribute-name");
             }
